@@ -45,6 +45,14 @@ def xyz():
 
 
 def run_case(case):
+    cwd0 = os.getcwd()
+    try:
+        return _run_case(case)
+    finally:
+        os.chdir(cwd0)
+
+
+def _run_case(case):
     x = xyz()
     N, spec = case["N"], case["spec"]
     kind = case.get("kind", "int")
@@ -62,9 +70,22 @@ def run_case(case):
         def sow(crop):
             crop.sow_combos(combos, verbosity=0)
 
+        away = os.path.join(root, "somewhere else")
+        os.makedirs(away)
+
+        def make(**kw):
+            if not case.get("cwd_crop"):
+                return x.Crop(name=name, parent_dir=root, **kw)
+            # no parent directory given: the crop lives in the directory the
+            # user is in at that moment - and stays there when they move on
+            os.chdir(root)
+            try:
+                return x.Crop(name=name, **kw)
+            finally:
+                os.chdir(away)
+
         with under_test("sow"):
-            crop = x.Crop(fn=fn, name=name, parent_dir=root,
-                          **({spec[0]: spec[1]} if spec else {}))
+            crop = make(fn=fn, **({spec[0]: spec[1]} if spec else {}))
             sow(crop)
         ids = crops.batch_ids(root, name)
         B = len(ids)
@@ -264,7 +285,7 @@ def run_case(case):
                         f"{tag}: check_bad reported {bad} on sound results")
             elif o == "reload":
                 with under_test("reload"):
-                    crop = x.Crop(name=name, parent_dir=root)
+                    crop = make()
             elif o == "resow":
                 with under_test("re-sow"):
                     if op.get("new_fn"):
@@ -274,11 +295,11 @@ def run_case(case):
                                        "ndarray": "int"}[cur_kind[0]]
                         fn2 = functools.partial(
                             models.flaky_fn, _xv=(failfile, cur_kind[0]))
-                        crop = x.Crop(fn=fn2, name=name, parent_dir=root,
-                                      **({spec[0]: spec[1]} if spec else {}))
+                        crop = make(fn=fn2,
+                                    **({spec[0]: spec[1]} if spec else {}))
                     elif op.get("fresh"):
-                        crop = x.Crop(fn=fn, name=name, parent_dir=root,
-                                      **({spec[0]: spec[1]} if spec else {}))
+                        crop = make(fn=fn,
+                                    **({spec[0]: spec[1]} if spec else {}))
                         cur_kind[0] = kind
                     sow(crop)
                 require(crops.batch_ids(root, name) == ids,
@@ -338,7 +359,8 @@ def strategy(draw):
             "ops": draw(st.lists(op, min_size=1, max_size=12)),
             "qrot": draw(st.integers(0, 4)),
             "odd_path": draw(st.sampled_from([None, None, None, "name",
-                                              "dir"]))}
+                                              "dir"])),
+            "cwd_crop": draw(st.sampled_from([False, False, True]))}
 
 
 PHASES = [
